@@ -48,6 +48,12 @@ def spec_abf(draw, tier):
     if draw(st.integers(0, 2)) == 0:
         spec["harm"] = {"k": rnd(draw(fl(0.2, 6.0)), 2), "c": rnd(grids[0]["lower"] + draw(fl(0, 1)) * grids[0]["n"] * grids[0]["width"], 2)}
         spec["subtract"] = draw(st.booleans())
+        if not periodic[0] and draw(st.booleans()):
+            # walls inside the grid (their force reaches the variable by another route than that of a plain restraint when an
+            # extended Lagrangian is involved; the applied-force bookkeeping must cover both)
+            g0 = grids[0]
+            lo = rnd(g0["lower"] + draw(fl(0.1, 0.45)) * g0["n"] * g0["width"], 2)
+            spec["harm"]["walls"] = [lo, rnd(lo + draw(fl(0.1, 0.4)) * g0["n"] * g0["width"], 2)]
     if draw(st.integers(0, 2)) == 0:
         spec["newrun"] = draw(st.integers(1, T - 1))
     if tf == 1 and draw(st.integers(0, 3)) == 0:
@@ -78,7 +84,10 @@ def build_case(spec):
         abf.append("  stepZeroData on")
     abf.append("}")
     cfg.append("\n".join(abf))
-    if spec["harm"]:
+    if spec["harm"] and spec["harm"].get("walls"):
+        cfg.append("harmonicWalls {\n  name harm\n  colvars z0\n  lowerWalls %s\n  upperWalls %s\n  forceConstant %s\n}" %
+                   (fmt(spec["harm"]["walls"][0]), fmt(spec["harm"]["walls"][1]), fmt(spec["harm"]["k"])))
+    elif spec["harm"]:
         cfg.append("harmonic {\n  name harm\n  colvars z0\n  centers %s\n  forceConstant %s\n}" %
                    (fmt(spec["harm"]["c"]), fmt(spec["harm"]["k"])))
     L = cvz.header(natoms, spec["tf"])
@@ -173,7 +182,13 @@ def model(spec):
                     if abf[i] * abf[i] > m * m:
                         abf[i] = m if abf[i] > 0 else -m
         tot_applied = list(abf)
-        if spec["harm"]:
+        if spec["harm"] and spec["harm"].get("walls"):
+            lo, up = spec["harm"]["walls"]
+            d = (x[0] - lo) if x[0] < lo else ((x[0] - up) if x[0] > up else 0.0)
+            tot_applied[0] += -spec["harm"]["k"] / (w0 * w0) * d
+            if d != 0.0:
+                info["wall_active"] = info.get("wall_active", 0) + 1
+        elif spec["harm"]:
             d = x[0] - spec["harm"]["c"]
             if spec["periodic"][0]:
                 P = grids[0]["n"] * grids[0]["width"]
@@ -243,6 +258,8 @@ def check_abf(spec, ctx):
         strata.append("ramp_mid")
     if info["outside"]:
         strata.append("outside")
+    if info.get("wall_active") and spec["subtract"] and spec["tf"] != 1:
+        strata.append("walls_sub_late")
     return Outcome(True, nontrivial=nontrivial, cls=cls, strata=strata, case_text=case)
 
 
@@ -252,5 +269,5 @@ def sample_view(spec):
 
 
 PARTS = {"abf": {"strategy": spec_abf, "check": check_abf, "examples": {"quick": 15000, "thorough": 60000}, "sample": sample_view}}
-REQUIRED_STRATA = {"all": ["abf:S", "abf:L", "abf:per", "abf:harm", "abf:sub", "abf:newrun", "abf:ramp_mid", "abf:outside",
+REQUIRED_STRATA = {"all": ["abf:walls_sub_late", "abf:S", "abf:L", "abf:per", "abf:harm", "abf:sub", "abf:newrun", "abf:ramp_mid", "abf:outside",
                            "abf:multi_sample_bin", "abf:nv2", "abf:nv3"]}
